@@ -147,6 +147,7 @@ class MemFile:
     def __init__(self, fs, path, mode, text):
         self.fs = fs
         self.path = path
+        self.name = path
         self.mode = mode
         self.text = text
         self.buf = b""
@@ -444,7 +445,21 @@ class GlobalRoute:
 
         def opener(real):
             def open_(file, mode="r", *a, **k):
+                if isinstance(file, int) and not isinstance(file, bool) and MemFile.by_fd.get(file) is not None:
+                    return fos.fdopen(file, mode)       # open(fd): a descriptor of ours (tempfile does this)
                 r = route(file)
+                op = k.get("opener")
+                if r and op is not None:
+                    # open(path, mode, opener=...): the opener makes the descriptor (tempfile, 3.12)
+                    fl = (os.O_RDWR if "+" in mode else os.O_WRONLY if any(c in mode for c in "wax") else os.O_RDONLY)
+                    fl |= (os.O_CREAT | os.O_TRUNC) if "w" in mode else (os.O_CREAT | os.O_APPEND) if "a" in mode \
+                        else (os.O_CREAT | os.O_EXCL) if "x" in mode else 0
+                    fd = op(file, fl)
+                    if MemFile.by_fd.get(fd) is not None:
+                        return fos.fdopen(fd, mode)
+                    k2 = dict(k)
+                    k2.pop("opener")
+                    return real(fd, mode, *a, **k2)
                 return fs.open(r, mode, *a, **k) if r else real(file, mode, *a, **k)
             return open_
         patch(builtins, "open", opener)
